@@ -88,7 +88,7 @@ def arity_obligations(run, wsdir_for_mir=None):
     try:
         shutil.copy(os.path.join(ws.VERIF, "harness", "arity_replay.rs"), os.path.join(wsdir, "crates", "steel-core", "tests", "verif_arity_replay.rs"))
         p = subprocess.run(["cargo", "test", "--offline", "-p", "steel-core", "--no-default-features", "--features", ws.FEATURES,
-                            "--test", "verif_arity_replay", "--target-dir", os.path.join(root, "tn"), "--", "--nocapture"],
+                            "--test", "verif_arity_replay", "--target-dir", os.path.join(root, "tn"), "--", "arity_replay", "--exact", "--nocapture"],
                            cwd=wsdir, env=dict(env, VERIF_ARITY_LENS=lens), capture_output=True, text=True, timeout=1800)
         m = re.search(r"OBSERVED: (.*)", p.stdout + p.stderr)
     except Exception as ex:
@@ -123,7 +123,7 @@ def replay(pid, path):
         root = os.path.dirname(wsdir)
         shutil.copy(os.path.join(ws.VERIF, "harness", "arity_replay.rs"), os.path.join(wsdir, "crates", "steel-core", "tests", "verif_arity_replay.rs"))
         p = subprocess.run(["cargo", "test", "--offline", "-p", "steel-core", "--no-default-features", "--features", ws.FEATURES,
-                            "--test", "verif_arity_replay", "--target-dir", os.path.join(root, "tn"), "--", "--nocapture"],
+                            "--test", "verif_arity_replay", "--target-dir", os.path.join(root, "tn"), "--", "arity_replay", "--exact", "--nocapture"],
                            cwd=wsdir, env=dict(os.environ, VERIF_ARITY_LENS=",".join(str(x) for x in payload["lens"])), capture_output=True, text=True)
         m = re.search(r"OBSERVED: (.*)", p.stdout + p.stderr)
         print("observed:", m.group(1) if m else "not reproduced")
